@@ -75,6 +75,7 @@ def run(prog, chk):
         chk.fail("R17.2", "brush_builtins::wait::WaitCommand", "wait-does-not-call-wait_all", "WaitCommand::execute no longer calls JobManager::wait_all")
     else:
         chk.ok("R17.2", "wait->wait_all", "WaitCommand::execute calls JobManager::wait_all", function=owner(wc.name))
+        _bare_wait_always_waits(prog, chk, wc)
     wa = prog.impl_body(JM + "::wait_all")
     jw = prog.impl_body(JOB + "::wait")
     tw = prog.impl_body(TASK + "::wait")
@@ -204,3 +205,51 @@ def _loop_link(chk, body, name, callee, removal):
                          "awaited again: blocks %s" % (name, callee, t.line, p), detail={"path_blocks": p})
             else:
                 chk.ok("R17.2", "task-removed:" + name, "every path after the await removes the task (or records Stopped)", function=name)
+
+
+def _bare_wait_always_waits(prog, chk, wc):
+    """R17.4: `wait` without operands has no shortcut. From the `ids.is_empty()` edge of WaitCommand::execute every path to a normal
+    return passes the awaited wait_all call; a test of some summary of the job table (current job, count, a flag) that returns early
+    would let `wait` come back while an older job is still running."""
+    from dataflow import flow_back
+    chk.rule("R17.4", "wait without operands: every non-error path from the `no ids` edge to the return passes JobManager::wait_all (no fast path)")
+    c = cfg_of(wc)
+    d = defs_of(wc)
+    was = [bb for bb, _ in call_sites(wc, {JM + "::wait_all"})]
+    edges = []
+    for bl in wc.blocks:
+        t = bl.term
+        if t.kind != "switch":
+            continue
+        for o in origins(wc, d, t.discr, through_ops=True):
+            if o.kind == 'call' and (o.node.best_callee() or o.node.callee or "").endswith("Vec::is_empty") \
+                    and any("ids" in f.field_path() for f in flow_back(wc, d, o.node.args[0], all_args=False)):
+                f_edge = [tg for v, tg in t.targets if v == 0]
+                # is_empty() == true -> otherwise edge (a negation in between is folded by MIR into the edge order)
+                negated = any(x.kind == 'op' and getattr(x.node, "op", "") == "Not" for x in origins(wc, d, t.discr, through_ops=True))
+                edges.append(f_edge[0] if negated and f_edge else t.otherwise)
+    chk.floor("R17.4", "tests of ids.is_empty() in WaitCommand::execute", len(edges), 1)
+    for e in edges:
+        if e in was or not was:
+            continue
+        # the edge on which wait_all is reachable is the `no ids` edge
+        if not any(w in c.reachable_from(e) for w in was):
+            continue
+        # a shortcut on "the job table itself is empty" changes nothing: wait_all over an empty table returns at once
+        benign = []
+        for x in c.reachable_from(e):
+            tx = wc.blocks[x].term
+            if tx.kind == "switch":
+                for o in origins(wc, d, tx.discr):
+                    if o.kind == 'call' and (o.node.best_callee() or o.node.callee or "").endswith("Vec::is_empty"):
+                        rf = flow_back(wc, d, o.node.args[0], all_args=False)
+                        if rf and any(f.fields() and f.fields()[-1][1] == "jobs" and f.fields()[-1][0].endswith("jobs::JobManager") for f in rf):
+                            benign.append(tx.otherwise)
+        w = c.escapes(e, was, c.return_blocks(), after=False, avoid=list(c.error_exit_blocks()) + benign)
+        if w is None:
+            chk.ok("R17.4", "bare-wait-always-waits", "wait_all cuts every path from the `no ids` edge to the return", function=owner(wc.name))
+        else:
+            chk.fail("R17.4", owner(wc.name), "bare-wait-returns-without-waiting",
+                     "`wait` without operands can return without calling JobManager::wait_all (path via lines %s): a shortcut that looks at a summary of the job "
+                     "table (no current job, …) returns while an older job is still running"
+                     % sorted({wc.blocks[x].term.line for x in w})[:6])
